@@ -107,6 +107,16 @@ var (
 	flagSolver  = flag.String("solver", "z3-new", "z3|z3-new|cvc5")
 )
 
+// devRun: not the registered check (which runs every entry against /repo)
+func devRun() bool { return *flagRepo != "/repo" || *flagEntry != "" }
+
+func evidenceDir() string {
+	if devRun() {
+		return filepath.Join(*flagVerif, "out", "evidence-dev")
+	}
+	return filepath.Join(*flagVerif, "evidence")
+}
+
 func main() {
 	flag.Parse()
 	goEnv()
@@ -164,6 +174,10 @@ func run() int {
 	hdir := filepath.Dir(*flagSpec)
 	hdir, _ = filepath.Abs(hdir)
 	outDir := filepath.Join(*flagVerif, "out", "replay", spec.Property)
+	if devRun() {
+		// debug runs (another tree, a single entry) keep away from the registered check's files
+		outDir = filepath.Join(*flagVerif, "out", "replay-dev", spec.Property)
+	}
 	if *flagReplay != "" {
 		// a replay must not delete the draw files of the run that reported them
 		outDir = filepath.Join(*flagVerif, "out", "replay-run", spec.Property)
@@ -864,8 +878,8 @@ func writeEvidenceFailure(spec *Spec, why string, t0 time.Time) {
 		"wall_s":   time.Since(t0).Seconds(), "violations": 0,
 	}
 	b, _ := json.MarshalIndent(ev, "", " ")
-	os.MkdirAll(filepath.Join(*flagVerif, "evidence"), 0o755)
-	os.WriteFile(filepath.Join(*flagVerif, "evidence", spec.Property+".json"), b, 0o644)
+	os.MkdirAll(evidenceDir(), 0o755)
+	os.WriteFile(filepath.Join(evidenceDir(), spec.Property+".json"), b, 0o644)
 }
 
 func writeEvidence(spec *Spec, tier TierSpec, results []*sym.EntryResult, prog *ssa.Program, x evExtra) {
@@ -1046,8 +1060,8 @@ func writeEvidence(spec *Spec, tier TierSpec, results []*sym.EntryResult, prog *
 		coverage["distinct_nontrivial"] = 0
 	}
 	b, _ := json.MarshalIndent(ev, "", " ")
-	os.MkdirAll(filepath.Join(*flagVerif, "evidence"), 0o755)
-	os.WriteFile(filepath.Join(*flagVerif, "evidence", spec.Property+".json"), b, 0o644)
+	os.MkdirAll(evidenceDir(), 0o755)
+	os.WriteFile(filepath.Join(evidenceDir(), spec.Property+".json"), b, 0o644)
 }
 
 func tierLoop(t TierSpec) int {
